@@ -56,7 +56,7 @@ pub fn generate(prop: &str, tier: &str, seed: u64, outdir: &str) {
         "C09" => gen_c09(&mut out, &mut rng, thorough),
         "C02" => gen_c02(&mut out, &mut rng, thorough),
         "C15" => {
-            let scripts: Vec<usize> = if thorough { (0..crate::faults::NUM_SCRIPTS).collect() } else { vec![0, 1, 2, 4, 5, 6] };
+            let scripts: Vec<usize> = if thorough { (0..crate::faults::NUM_SCRIPTS).collect() } else { vec![0, 1, 2, 4, 5, 6, 7, 8] };
             for n in scripts {
                 for kind in ["write", "read", "seek"] {
                     for mode in ["transient", "persistent"] {
@@ -247,6 +247,18 @@ fn gen_c18(out: &mut Out, rng: &mut Rng, thorough: bool) {
         };
         ts_req(out, "save_reopen", "ts_save", ns);
     }
+    // ... stored after string properties in every code page (text from the page's own repertoire)
+    for round in 0..(if thorough { 20 } else { 2 }) {
+        for (page, texts) in crate::hist::PAGE_SAMPLES.iter() {
+            for x in texts.iter() {
+                let tick = rng.next() as i128;
+                let ns = (tick - EPOCH_TICKS) * 100 + rng.below(100) as i128 + round as i128;
+                let secs = ns.div_euclid(1_000_000_000);
+                let nanos = ns.rem_euclid(1_000_000_000);
+                out.req("save_reopen_text", format!("ts_save {secs} {nanos} {page} {}", hex_of_str(x)));
+            }
+        }
+    }
 }
 
 // ------------------------------------------------------------------------------------
@@ -293,6 +305,26 @@ fn gen_c13(out: &mut Out, rng: &mut Rng, thorough: bool) {
     let row = c13_row();
     let rt = row_toks(&row);
     let leaves = c13_leaves();
+    // ONE expression object evaluated on two rows that hold the same columns at different
+    // positions (reversed, rotated) and different values: the value depends on the row alone
+    {
+        let mut rev = row.clone();
+        rev.reverse();
+        let mut rot = row.clone();
+        rot.rotate_left(5);
+        let vals: Vec<V> = row.iter().map(|x| x.1.clone()).collect();
+        let mut shifted = row.clone();
+        for (i, x) in shifted.iter_mut().enumerate() {
+            x.1 = vals[(i + 3) % vals.len()].clone();
+        }
+        let others = [row_toks(&rev), row_toks(&rot), row_toks(&shifted)];
+        let n = if thorough { 20000 } else { 1500 };
+        for i in 0..n {
+            let d = 1 + rng.below(3) as usize;
+            let e = random_expr(rng, d, &leaves);
+            out.req("two_rows", format!("eval2 {rt} {} {}", others[i % 3], e.to_line()));
+        }
+    }
     // depth 1, exhaustive: every operator on every (pair of) leaf
     for op in UNOPS {
         for a in &leaves {
@@ -680,6 +712,24 @@ fn gen_c07(out: &mut Out, rng: &mut Rng, thorough: bool) {
         cs[i] = *rng.pick(&['-', '{', '}', 'G', 'a', 'f', '0', 'F', ' ', '\u{e9}', '+']);
         guids.push(cs.into_iter().collect());
     }
+    // every single-position mutation of a valid GUID (ASCII and multi-byte replacements: the
+    // string keeps its 38 characters but not its 38 bytes), and a multi-byte character at any
+    // position together with a second mutation
+    let repl = ['-', '{', '}', 'G', 'a', 'f', '0', 'F', ' ', '\u{e9}', '+', '\u{65e5}', '\u{1f600}'];
+    for i in 0..38 {
+        for r in repl {
+            let mut cs: Vec<char> = good.chars().collect();
+            cs[i] = r;
+            guids.push(cs.into_iter().collect());
+        }
+    }
+    for i in 0..38 {
+        let j = (i * 7 + 3) % 38;
+        let mut cs: Vec<char> = good.chars().collect();
+        cs[i] = '\u{e9}';
+        cs[j] = *rng.pick(&repl);
+        guids.push(cs.into_iter().collect());
+    }
     for g in &guids {
         out.req("guid_shapes", format!("validate Guid {}", hex_of_str(g)));
     }
@@ -975,6 +1025,47 @@ fn gen_refs_up_directed(out: &mut Out, rng: &mut Rng, n: usize) {
 /// every one of the 26 code pages as the database code page, with text from that page's own
 /// repertoire (short, mixed ASCII / multi-byte), saved and reopened in every close mode; then
 /// moved to UTF-8 and back
+/// strings whose encoded length sits on and around the multiples of 65,536 bytes (the long-string
+/// escape of the pool) and of the encoder's 1 KiB chunk, in one- and two-byte characters, stored,
+/// saved, reopened, then another string-touching change and another reopen
+fn gen_long_strings_directed(out: &mut Out, rng: &mut Rng, thorough: bool) {
+    let t = hex_of_str("T");
+    let k = hex_of_str("K");
+    let sc = hex_of_str("S");
+    let lens: &[usize] = if thorough { &[65535, 65536, 65537, 131071, 131072, 131073, 196608, 70000] } else { &[65535, 65536, 65537, 131072] };
+    for (case, &len) in lens.iter().enumerate() {
+        for two_byte in [false, true] {
+            out.req("new", format!("new {}", case % 3));
+            out.req("create_table", format!("create_table {t} {k}:i16:K:-:-:-:- {sc}:s0:N:-:-:-:-"));
+            let text: String = if two_byte { "\u{e9}".repeat(len / 2) + if len % 2 == 1 { "x" } else { "" } } else { "L".repeat(len) };
+            out.req("insert", format!("insert {t} 3 2 I1 S{} 2 I2 S{} 2 I3 S{}", hex_of_str("before"), hex_of_str(&text), hex_of_str("after")));
+            out.req("snapshot", "snapshot".into());
+            out.req("reopen", format!("reopen {}", crate::hist::CLOSE_MODES[case % 3]));
+            out.req("snapshot", "snapshot".into());
+            out.req("insert", format!("insert {t} 1 2 I4 S{}", hex_of_str("later")));
+            out.req("snapshot", "snapshot".into());
+            out.req("reopen", format!("reopen {}", rng.pick(&crate::hist::CLOSE_MODES)));
+            out.req("snapshot", "snapshot".into());
+            out.req("raw", "raw".into());
+        }
+    }
+    // a multi-byte character across each 1 KiB boundary of the encoder's chunk
+    for off in [1022usize, 1023, 1024, 2047, 2048, 3071] {
+        out.req("new", "new 0".into());
+        out.req("create_table", format!("create_table {t} {k}:i16:K:-:-:-:- {sc}:s0:N:-:-:-:-"));
+        let text = format!("{}\u{e9}{}\u{65e5}{}", "a".repeat(off), "b".repeat(1021), "c".repeat(40));
+        out.req("insert", format!("insert {t} 2 2 I1 S{} 2 I2 S{}", hex_of_str(&text), hex_of_str("after")));
+        out.req("snapshot", "snapshot".into());
+        out.req("reopen", format!("reopen {}", rng.pick(&crate::hist::CLOSE_MODES)));
+        out.req("snapshot", "snapshot".into());
+        out.req("insert", format!("insert {t} 1 2 I3 S{}", hex_of_str("later")));
+        out.req("snapshot", "snapshot".into());
+        out.req("reopen", format!("reopen {}", rng.pick(&crate::hist::CLOSE_MODES)));
+        out.req("snapshot", "snapshot".into());
+        out.req("raw", "raw".into());
+    }
+}
+
 fn gen_pages_directed(out: &mut Out, rng: &mut Rng, rounds: usize) {
     let t = hex_of_str("T");
     let k = hex_of_str("K");
@@ -1060,22 +1151,28 @@ fn gen_hist_prop(prop: &str, out: &mut Out, rng: &mut Rng, thorough: bool) {
         "C03" | "C05" => {
             gen_exhaustive(out, if thorough { 4 } else { 3 }, thorough);
             gen_refs_up_directed(out, rng, if thorough { 300 } else { 24 });
+            gen_pages_directed(out, rng, if thorough { 3 } else { 1 });
             cfg.streams = false;
             cfg.summary = false;
             cfg.raw = false;
         }
         "C04" => {
             cfg.raw = false;
+            // a refused insert into a table that is exactly full, or one row short of it
+            out.req("rows_limit", "@rows_limit 65536 1".into());
+            out.req("rows_limit", "@rows_limit 65535 2 1".into());
         }
         "C01" => {
             gen_c01_directed(out, rng, if thorough { 1500 } else { 90 });
             gen_refs_up_directed(out, rng, if thorough { 300 } else { 24 });
             gen_pages_directed(out, rng, if thorough { 6 } else { 1 });
             gen_fk_directed(out, rng, if thorough { 300 } else { 18 });
+            gen_long_strings_directed(out, rng, thorough);
         }
         "C08" => {
             cfg.summary = false;
             gen_c08_directed(out, rng, if thorough { 600 } else { 60 });
+            gen_long_strings_directed(out, rng, thorough);
             gen_refs_up_directed(out, rng, if thorough { 300 } else { 24 });
             gen_pages_directed(out, rng, if thorough { 6 } else { 1 });
         }
@@ -1112,6 +1209,15 @@ fn c12_join_names(l: &crate::refdb::Sel, r: &crate::refdb::Sel, db: &crate::refd
 fn c12_cond(rng: &mut Rng, names: &[String]) -> E {
     if names.is_empty() || rng.chance(1, 12) {
         return E::Bin("eq", Box::new(E::Col("Nope".into())), Box::new(E::Lit(V::Int(1))));
+    }
+    if rng.chance(1, 8) {
+        // a constant operand that decides an AND / OR next to an operand naming a column that may
+        // not exist: unknown names are errors wherever they appear
+        let other = if rng.chance(1, 2) { E::Col("Nope".into()) } else { E::Col(rng.pick(names).clone()) };
+        let other = if rng.chance(1, 2) { E::Bin("eq", Box::new(other), Box::new(E::Lit(V::Int(1)))) } else { other };
+        let k = E::Lit(rng.pick(&[V::Int(0), V::Int(1), V::Null, V::Str("".into()), V::Str("t".into())]).clone());
+        let op = *rng.pick(&["and", "or"]);
+        return if rng.chance(1, 2) { E::Bin(op, Box::new(k), Box::new(other)) } else { E::Bin(op, Box::new(other), Box::new(k)) };
     }
     let a = E::Col(rng.pick(names).clone());
     let b = if rng.chance(1, 2) { E::Col(rng.pick(names).clone()) } else { E::Lit(rng.pick(&[V::Int(1), V::Int(2), V::Null, V::Str("x".into())]).clone()) };
@@ -1331,6 +1437,28 @@ fn gen_c10(out: &mut Out, rng: &mut Rng, thorough: bool) {
 // C06: column definitions over all builder options
 
 fn gen_c06(out: &mut Out, rng: &mut Rng, thorough: bool) {
+    // every one of the 24 table-backed code pages as the database code page: a table whose
+    // enumerated values are text of that page, after a row holding such text; then an ASCII table
+    for round in 0..(if thorough { 4 } else { 1 }) {
+        for (pi, (page, texts)) in crate::hist::PAGE_SAMPLES.iter().enumerate() {
+            out.req("new", format!("new {}", (pi + round) % 3));
+            out.req("set_db_cp", format!("set_db_cp {page}"));
+            let mut k = ColDef::new("K", CT::I16);
+            k.key = true;
+            let mut e = ColDef::new("E", CT::Str(0));
+            e.nullable = true;
+            e.enums = texts.iter().map(|x| x.to_string()).chain(["Mon".to_string()]).collect();
+            out.req("create_table", format!("create_table {} {} {}", hex_of_str("Pg"), k.tok(), e.tok()));
+            out.req("insert", format!("insert {} 1 2 I1 S{}", hex_of_str("Pg"), hex_of_str(texts[0])));
+            let mut a = ColDef::new("A", CT::Str(8));
+            a.nullable = true;
+            a.cat = Some("Identifier");
+            out.req("create_table", format!("create_table {} {} {}", hex_of_str("Plain"), k.tok(), a.tok()));
+            out.req("snapshot", "snapshot".into());
+            out.req("reopen", format!("reopen {}", crate::hist::CLOSE_MODES[(pi + round) % 3]));
+            out.req("snapshot", "snapshot".into());
+        }
+    }
     let n = if thorough { 20000 } else { 1500 };
     let widths = [0usize, 1, 2, 64, 72, 254, 255, 256, 257, 511, 512, 4095, 4096, 65535, 65536];
     let cats: Vec<&'static str> = CATEGORIES.iter().map(|c| c.0).collect();
@@ -1439,6 +1567,19 @@ fn gen_c20(out: &mut Out, rng: &mut Rng, thorough: bool) {
             out.req("name_limit", format!("stream_write {} 0102", hex_of_str(&name)));
         }
     }
+    // the limit counts UTF-16 units of the encoded name, whatever the characters: accented
+    // letters and CJK (1 unit, 2-3 UTF-8 bytes), emoji (2 units, 4 bytes), mixed with packable text
+    for len in [10usize, 15, 16, 29, 30, 31, 32] {
+        for ch in ['\u{e9}', '\u{65e5}'] {
+            let name: String = std::iter::repeat(ch).take(len).collect();
+            out.req("name_limit", format!("stream_write {} 0102", hex_of_str(&name)));
+            out.req("name_limit", format!("stream_read {}", hex_of_str(&name)));
+        }
+        let emoji: String = std::iter::repeat('\u{1f600}').take(len / 2).collect();
+        out.req("name_limit", format!("stream_write {} 0102", hex_of_str(&emoji)));
+        let mixed = format!("{}{}", "ab".repeat(len), "\u{fc}");
+        out.req("name_limit", format!("stream_write {} 0102", hex_of_str(&mixed)));
+    }
     out.req("snapshot", "snapshot".into());
     out.req("reopen", "reopen flush".into());
     out.req("snapshot", "snapshot".into());
@@ -1475,7 +1616,36 @@ fn gen_c20(out: &mut Out, rng: &mut Rng, thorough: bool) {
 // ------------------------------------------------------------------------------------
 // C16: read-only sessions
 
+fn gen_c16_full_pool(out: &mut Out, rng: &mut Rng) {
+    use crate::decode::*;
+    let mut k = ColDef::new("K", CT::I16);
+    k.key = true;
+    let mut v = ColDef::new("V", CT::Str(0));
+    v.nullable = true;
+    let tables = vec![EncTable { name: "T".into(), cols: vec![k, v], rows: vec![vec![V::Int(1), V::Str("one".into())], vec![V::Int(2), V::Null]] }];
+    let mut layout = EncLayout {
+        long_refs: false, cp_id: 65001, filler: vec![], overcount: 0, duplicate: false,
+        with_validation: true, reverse_rows: false, int16_size: 2,
+    };
+    let base = decode(&encode_db(&layout, &tables)).unwrap().pool.len();
+    for target in [65535usize, 65534] {
+        layout.filler = (0..target - base).map(|_| (String::new(), 0u16)).collect();
+        let mut entries = encode_db(&layout, &tables);
+        let props: Vec<(u32, PVal)> = vec![(1, PVal::I2(65001u16 as i16)), (2, PVal::Str(b"Installation Database".to_vec()))];
+        let pl = PropLayout { version: 0, os: 2, os_version: 10, section_gap: 0, table_order: vec![0, 1], value_order: vec![0, 1], gaps: vec![0, 0] };
+        entries.push(("\u{5}SummaryInformation".to_string(), write_propset(&props, &pl)));
+        for mode in crate::hist::CLOSE_MODES {
+            out.req("load", format!("load 0 {}", entries_tok(&entries)));
+            out.req("ro_select", format!("select SEL 0 - T {}", hex_of_str("T")));
+            out.req("ro_streams", "streams".into());
+            out.req("readonly_close", format!("@readonly_close {mode}"));
+        }
+    }
+    let _ = rng;
+}
+
 fn gen_c16(out: &mut Out, rng: &mut Rng, thorough: bool) {
+    gen_c16_full_pool(out, rng);
     let cfg = crate::hist::HistCfg {
         sessions: 0, max_steps: 12, non_ascii: true, streams: true, summary: true, invalid: false,
         key_updates: false, reopen: false, raw: false, selects: false,
@@ -1940,7 +2110,11 @@ fn gen_c02(out: &mut Out, rng: &mut Rng, thorough: bool) {
                             CT::I32 => V::Int(if c.key { r as i32 * 70000 - 100000 } else { *rng.pick(&[i32::MIN + 1, i32::MAX, 0, 65536, -65537]) }),
                             CT::Str(_) => {
                                 let base = if c.key { format!("k{r}") } else { rng.pick(&["shared", "x", "two words", "Zed"]).to_string() };
-                                if unicode_ok && rng.chance(1, 6) {
+                                if unicode_ok && rng.chance(1, 12) {
+                                    // beyond the encoder's 1 KiB chunk, a multi-byte character across a chunk boundary
+                                    let pad = 1023usize.saturating_sub(base.len()) + 1024 * rng.below(3) as usize - rng.below(3) as usize;
+                                    V::Str(format!("{base}{}\u{e9}{}\u{65e5}\u{672c}tail", "p".repeat(pad), "q".repeat(1021 + rng.below(4) as usize)))
+                                } else if unicode_ok && rng.chance(1, 6) {
                                     V::Str(format!("{base}\u{e9}\u{65e5}"))
                                 } else if rng.chance(1, 25) {
                                     // beyond 64 KiB: any length, and lengths whose low 16 bits are zero or all ones
